@@ -5,20 +5,30 @@
 // FNV specification. oracle/c10_hashes.py repeats the comparison against Python's hashlib / zlib through a serve
 // shim (second, differently built reference).
 //
-// Case encoding (digest, chain): n = [len, pattern, misalignment, seed, split, crc_seed, fnv32_seed, fnv64_seed],
-// pattern 0 zeros, 1 0xFF, 2 i mod 251, 3 xorshift keyed by the length, 4 vg::expand(seed, len), 5 the blob s[0].
+// Case encoding (digest, chain): n = [len, pattern, misalignment, seed, split, crc_seed, fnv32_seed, fnv64_seed, ambient],
+// pattern 0 zeros, 1 0xFF, 2 i mod 251, 3 xorshift keyed by the length, 4 vg::expand(seed, len), 5 the blob s[0];
+// ambient (optional, digest only) = process state in force while phosg computes and renders, see struct Ambient.
+#define OPENSSL_SUPPRESS_DEPRECATED 1 // the low-level MD5_/SHA1_/SHA256_ one-shot calls are three times faster on short messages (digest-class search)
+#include <locale.h>
 #include <openssl/evp.h>
+#include <openssl/md5.h>
+#include <openssl/sha.h>
 #include <sys/mman.h>
 #include <zlib.h>
 
 #include <atomic>
+#include <locale>
 #include <thread>
 
 #include <phosg/Hash.hh>
 
+#include "c10/ambient.hh"
 #include "verif.hh"
 
 using namespace verif;
+using c10::Ambient;
+using c10::kAmbientModes;
+using c10::kAmbientNames;
 
 static std::string make_data(const Case& c) {
   uint64_t len = c.u(0), pattern = c.u(1);
@@ -107,27 +117,101 @@ struct Placed {
   }
 };
 
+// everything phosg returns for one message and one hash class, collected while the ambient state is in force
+struct Rendered {
+  std::string bin, hex, bin_s, hex_s;
+};
 template <typename H>
-static void check_digest(const char* name, const EVP_MD* md, const std::string& d, const Placed& pl, size_t digest_len) {
-  std::string exp = evp(md, d.data(), d.size());
+static Rendered render_all(const std::string& d, const Placed& pl, uint64_t ambient) {
+  Ambient guard(ambient);
+  Rendered r;
   H a(pl.p, pl.n);
-  std::string bin = a.bin();
-  VCHECK(bin.size() == digest_len, cat("bin-size:", name), name, "::bin() has ", bin.size(), " bytes for a ", d.size(), "-byte input");
-  VCHECK(bin == exp, cat("digest:", name), name, " of a ", d.size(), "-byte input is ", lower_hex(bin), " but the standard digest is ", lower_hex(exp));
-  std::string hx = a.hex();
-  VCHECK(hx.size() == 2 * digest_len && to_lower(hx) == lower_hex(bin), cat("hex:", name), name, "::hex() is '", hx, "' but bin() is ", lower_hex(bin));
-  for (char ch : hx) VCHECK((ch >= '0' && ch <= '9') || (ch >= 'a' && ch <= 'f') || (ch >= 'A' && ch <= 'F'), cat("hex:", name), name, "::hex() holds a non-hex character");
+  r.bin = a.bin();
+  r.hex = a.hex();
   H b(d);
-  VCHECK(b.bin() == exp && b.hex() == hx, cat("string-ctor:", name), name, "(std::string) differs from ", name, "(ptr, size) for a ", d.size(), "-byte input");
+  r.bin_s = b.bin();
+  r.hex_s = b.hex();
+  return r;
+}
+
+// rare classes of a digest VALUE (the input of the renderings): bytes all of one kind, leading zeros
+static bool printable_or_blank(unsigned char ch) { return (ch >= 0x20 && ch <= 0x7E) || ch == '\t' || ch == '\n' || ch == '\r'; }
+static const char* const kDigestClassNames[9] = {"all-bytes-printable-ascii", "all-bytes-letters-or-digits", "all-bytes<0x20", "all-bytes<0x80", "all-bytes>=0x80",
+    "all-hex-digits-decimal", ">=5-leading-zero-nibbles", "every-32-bit-word-starts-with-a-zero-nibble", ">=3-zero-bytes"};
+static unsigned digest_class_mask(const unsigned char* dg, size_t n) {
+  size_t printable = 0, low = 0, decimal_nibbles = 0, zero_bytes = 0, lead_zero_nibbles = 0, words_lead_zero = 0, alnum = 0, control = 0;
+  bool leading = true;
+  for (size_t k = 0; k < n; k++) {
+    unsigned char ch = dg[k];
+    printable += printable_or_blank(ch);
+    alnum += (ch >= '0' && ch <= '9') || (ch >= 'A' && ch <= 'Z') || (ch >= 'a' && ch <= 'z');
+    control += ch < 0x20;
+    low += ch < 0x80;
+    decimal_nibbles += ((ch >> 4) < 10) + ((ch & 15) < 10);
+    zero_bytes += ch == 0;
+    if (leading) {
+      if (ch == 0) lead_zero_nibbles += 2;
+      else {
+        if ((ch >> 4) == 0) lead_zero_nibbles++;
+        leading = false;
+      }
+    }
+    if (k % 4 == 0 && (ch >> 4) == 0) words_lead_zero++;
+  }
+  unsigned m = 0;
+  if (printable == n) m |= 1u << 0;
+  if (alnum == n) m |= 1u << 1;
+  if (control == n) m |= 1u << 2;
+  if (low == n) m |= 1u << 3;
+  if (low == 0) m |= 1u << 4;
+  if (decimal_nibbles == 2 * n) m |= 1u << 5;
+  if (lead_zero_nibbles >= 5) m |= 1u << 6;
+  if (words_lead_zero == n / 4) m |= 1u << 7;
+  if (zero_bytes >= 3) m |= 1u << 8;
+  return m;
+}
+static std::vector<const char*> digest_classes(const std::string& dg) {
+  std::vector<const char*> r;
+  unsigned m = digest_class_mask(reinterpret_cast<const unsigned char*>(dg.data()), dg.size());
+  for (unsigned k = 0; k < 9; k++)
+    if (m & (1u << k)) r.push_back(kDigestClassNames[k]);
+  return r;
+}
+
+static void check_hex_text(const char* name, const std::string& hx, const std::string& bin, size_t digest_len, const std::string& sig_suffix) {
+  VCHECK(hx.size() == 2 * digest_len && to_lower(hx) == lower_hex(bin), cat("hex:", name, sig_suffix), name, "::hex() is '", hx, "' but bin() is ", lower_hex(bin), sig_suffix.empty() ? "" : " with ambient state ", sig_suffix.empty() ? "" : sig_suffix.substr(1));
+  for (char ch : hx) VCHECK((ch >= '0' && ch <= '9') || (ch >= 'a' && ch <= 'f') || (ch >= 'A' && ch <= 'F'), cat("hex:", name, sig_suffix), name, "::hex() holds a non-hex character");
+}
+
+template <typename H>
+static void check_digest(const char* name, const EVP_MD* md, const std::string& d, const Placed& pl, size_t digest_len, uint64_t ambient) {
+  std::string exp = evp(md, d.data(), d.size());
+  // untouched process state first (so that a defect that does not depend on the ambient state keeps its plain signature)
+  Rendered r = render_all<H>(d, pl, 0);
+  VCHECK(r.bin.size() == digest_len, cat("bin-size:", name), name, "::bin() has ", r.bin.size(), " bytes for a ", d.size(), "-byte input");
+  VCHECK(r.bin == exp, cat("digest:", name), name, " of a ", d.size(), "-byte input is ", lower_hex(r.bin), " but the standard digest is ", lower_hex(exp));
+  check_hex_text(name, r.hex, r.bin, digest_len, "");
+  VCHECK(r.bin_s == exp && r.hex_s == r.hex, cat("string-ctor:", name), name, "(std::string) differs from ", name, "(ptr, size) for a ", d.size(), "-byte input");
+  if (ambient) {
+    std::string sfx = cat(":", kAmbientNames[ambient]);
+    Rendered q = render_all<H>(d, pl, ambient);
+    VCHECK(q.bin == exp, cat("digest:", name, sfx), name, "::bin() of a ", d.size(), "-byte input is ", lower_hex(q.bin), " with ambient state ", kAmbientNames[ambient], " but the standard digest is ", lower_hex(exp));
+    check_hex_text(name, q.hex, q.bin, digest_len, sfx);
+    VCHECK(q.bin_s == exp && q.hex_s == q.hex, cat("string-ctor:", name, sfx), name, "(std::string) differs from ", name, "(ptr, size) with ambient state ", kAmbientNames[ambient]);
+  }
+  for (const char* cl : digest_classes(exp)) ctx().cls(cat("digest-value:", name, ":", cl));
 }
 
 static void run_digest(const Case& c) {
   std::string d = make_data(c);
   size_t mis = c.u(2) & 15;
   Placed pl(d, mis);
-  check_digest<phosg::MD5>("MD5", EVP_md5(), d, pl, 16);
-  check_digest<phosg::SHA1>("SHA1", EVP_sha1(), d, pl, 20);
-  check_digest<phosg::SHA256>("SHA256", EVP_sha256(), d, pl, 32);
+  uint64_t ambient = c.n.size() > 8 ? c.u(8) : 0;
+  if (ambient >= kAmbientModes) throw std::logic_error("C10: unknown ambient mode");
+  check_digest<phosg::MD5>("MD5", EVP_md5(), d, pl, 16, ambient);
+  check_digest<phosg::SHA1>("SHA1", EVP_sha1(), d, pl, 20, ambient);
+  check_digest<phosg::SHA256>("SHA256", EVP_sha256(), d, pl, 32, ambient);
+  if (ambient) ctx().cls(cat("digest:ambient=", kAmbientNames[ambient]));
   uint32_t crc = phosg::crc32(pl.p, pl.n);
   VCHECK(crc == ref_crc(d), "crc32", "crc32 of a ", d.size(), "-byte input is ", crc, " but zlib gives ", ref_crc(d));
   uint32_t f32 = phosg::fnv1a32(pl.p, pl.n), f32s = phosg::fnv1a32(d);
@@ -192,9 +276,18 @@ static const Vector kVectors[] = {
 static void run_vectors(const Case& c) {
   const Vector& v = kVectors[c.u(0) % (sizeof(kVectors) / sizeof(kVectors[0]))];
   std::string t = v.text;
-  VCHECK(to_lower(phosg::MD5(t).hex()) == v.md5, "vector:MD5", "MD5(\"", t, "\") is ", phosg::MD5(t).hex());
-  VCHECK(to_lower(phosg::SHA1(t).hex()) == v.sha1, "vector:SHA1", "SHA1(\"", t, "\") is ", phosg::SHA1(t).hex());
-  VCHECK(to_lower(phosg::SHA256(t).hex()) == v.sha256, "vector:SHA256", "SHA256(\"", t, "\") is ", phosg::SHA256(t).hex());
+  uint64_t ambient = c.n.size() > 1 ? c.u(1) : 0; // the published hex strings hold whatever the process locale is
+  std::string h_md5, h_sha1, h_sha256;
+  {
+    Ambient guard(ambient);
+    h_md5 = phosg::MD5(t).hex();
+    h_sha1 = phosg::SHA1(t).hex();
+    h_sha256 = phosg::SHA256(t).hex();
+  }
+  std::string sfx = ambient ? cat(":", kAmbientNames[ambient]) : std::string();
+  VCHECK(to_lower(h_md5) == v.md5, "vector:MD5" + sfx, "MD5(\"", t, "\") is ", h_md5);
+  VCHECK(to_lower(h_sha1) == v.sha1, "vector:SHA1" + sfx, "SHA1(\"", t, "\") is ", h_sha1);
+  VCHECK(to_lower(h_sha256) == v.sha256, "vector:SHA256" + sfx, "SHA256(\"", t, "\") is ", h_sha256);
   VCHECK(phosg::crc32(t.data(), t.size()) == v.crc, "vector:crc32", "crc32(\"", t, "\") is ", phosg::crc32(t.data(), t.size()));
   if (v.fnv64) {
     VCHECK(phosg::fnv1a32(t) == v.fnv32, "vector:fnv1a32", "fnv1a32(\"", t, "\") is ", phosg::fnv1a32(t));
@@ -303,6 +396,127 @@ static Case gen_concurrent() {
   return Case("concurrent").N(2 + vg::below(5)).N(len).N(vg::u64()).N(len > 4096 ? 40 : 300);
 }
 
+// ---------------------------------------------------------------- renderings of a chosen digest value
+//
+// bin() and hex() are const members without arguments of structs whose only data are the PUBLIC state words (a0..d0 / h[]):
+// they are functions of the digest value (and, by mistake, of ambient state). Which value a message produces cannot be chosen,
+// but the state words of an object can be assigned: the object hashed from "abc" gets the words of a chosen digest (MD5: four
+// little-endian words, SHA-1 / SHA-256: big-endian words - the serialisation the standards define) and must render it:
+// bin() = the chosen bytes, hex() = their 2n hex digits. This reaches value classes no search can (SHA-1 / SHA-256 digests
+// made of printable bytes only, all-zero, all-0xFF ...). It treats every state as the digest of some message - for a
+// cryptographic hash every value is believed to be one, but this subcheck does not exhibit the message; the `digest` subcheck
+// does for the classes a search reaches.   n = [algorithm 0 MD5 / 1 SHA-1 / 2 SHA-256, ambient], s = [digest bytes]
+static const size_t kDigestLen[3] = {16, 20, 32};
+static const char* kAlgoNames[3] = {"MD5", "SHA1", "SHA256"};
+static uint32_t word_le(const std::string& d, size_t k) {
+  return static_cast<uint32_t>(static_cast<unsigned char>(d[4 * k])) | static_cast<uint32_t>(static_cast<unsigned char>(d[4 * k + 1])) << 8 |
+      static_cast<uint32_t>(static_cast<unsigned char>(d[4 * k + 2])) << 16 | static_cast<uint32_t>(static_cast<unsigned char>(d[4 * k + 3])) << 24;
+}
+static uint32_t word_be(const std::string& d, size_t k) { return __builtin_bswap32(word_le(d, k)); }
+static void run_render(const Case& c) {
+  uint64_t algo = c.u(0), ambient = c.u(1);
+  const std::string& dg = c.str(0);
+  if (algo > 2 || ambient >= kAmbientModes || dg.size() != kDigestLen[algo]) throw std::logic_error("C10: render case outside the domain");
+  const char* name = kAlgoNames[algo];
+  auto render = [&](uint64_t amb, std::string& bin, std::string& hx) {
+    Ambient guard(amb);
+    switch (algo) {
+      case 0: {
+        phosg::MD5 h("abc", 3);
+        h.a0 = word_le(dg, 0);
+        h.b0 = word_le(dg, 1);
+        h.c0 = word_le(dg, 2);
+        h.d0 = word_le(dg, 3);
+        bin = h.bin();
+        hx = h.hex();
+        break;
+      }
+      case 1: {
+        phosg::SHA1 h("abc", 3);
+        for (size_t k = 0; k < 5; k++) h.h[k] = word_be(dg, k);
+        bin = h.bin();
+        hx = h.hex();
+        break;
+      }
+      default: {
+        phosg::SHA256 h("abc", 3);
+        for (size_t k = 0; k < 8; k++) h.h[k] = word_be(dg, k);
+        bin = h.bin();
+        hx = h.hex();
+      }
+    }
+  };
+  // untouched process state first, so that a defect that does not depend on the ambient state keeps its plain signature
+  for (uint64_t amb : {uint64_t(0), ambient}) {
+    std::string bin, hx;
+    render(amb, bin, hx);
+    std::string sfx = amb ? cat(":", kAmbientNames[amb]) : std::string();
+    VCHECK(bin == dg, cat("render-bin:", name, sfx), name, "::bin() of the state ", lower_hex(dg), " is ", lower_hex(bin));
+    VCHECK(hx.size() == 2 * dg.size() && to_lower(hx) == lower_hex(dg), cat("render-hex:", name, sfx), name, "::hex() of the digest value ", lower_hex(dg), " is '", hx, "'");
+    for (char ch : hx) VCHECK((ch >= '0' && ch <= '9') || (ch >= 'a' && ch <= 'f') || (ch >= 'A' && ch <= 'F'), cat("render-hex:", name, sfx), name, "::hex() holds a non-hex character");
+    if (!ambient) break;
+  }
+  std::vector<const char*> cl = digest_classes(dg);
+  for (const char* k : cl) ctx().cls(cat("render:", name, ":", k));
+  if (!cl.empty()) ctx().nontrivial_case();
+}
+// byte classes a digest value is drawn from
+static const std::string& byte_class(unsigned k) {
+  static const std::vector<std::string> cls = [] {
+    std::vector<std::string> v(8);
+    for (int b = 0x20; b <= 0x7E; b++) v[0] += static_cast<char>(b); // printable ASCII
+    v[1] = v[0] + "\t\n\r"; // ... and blanks
+    v[2] = "0123456789ABCDEFGHIJKLMNOPQRSTUVWXYZabcdefghijklmnopqrstuvwxyz";
+    for (int b = 0; b < 0x20; b++) v[3] += static_cast<char>(b); // control
+    for (int b = 0x80; b < 0x100; b++) v[4] += static_cast<char>(b); // high
+    v[5] = std::string("\x00\x01\x09\x0A\x0F\x10", 6); // leading zero nibbles
+    v[6] = std::string("\x00\xFF\x7F\x80\x20\x7E\x22\x5C\x25", 9); // boundaries, quote, backslash, percent
+    v[7] = "0123456789"; // decimal digits as bytes
+    return v;
+  }();
+  return cls[k % cls.size()];
+}
+static Case gen_render() {
+  uint64_t algo = vg::below(3);
+  size_t n = kDigestLen[algo];
+  std::string dg;
+  switch (vg::below(4)) {
+    case 0: dg = vg::bytes(n); break; // uniform
+    case 1: dg = vg::bytes_from(byte_class(vg::below(8)), n); break; // all bytes of one class
+    case 2: { // one class with one or two bytes from anywhere
+      dg = vg::bytes_from(byte_class(vg::below(8)), n);
+      for (size_t k = 1 + vg::below(2); k > 0; k--) dg[vg::below(n)] = static_cast<char>(vg::below(256));
+      break;
+    }
+    default: { // each 32-bit word from its own class (a rendering works word by word)
+      for (size_t w = 0; w < n / 4; w++) dg += vg::chance(1, 3) ? vg::bytes(4) : vg::bytes_from(byte_class(vg::below(8)), 4);
+    }
+  }
+  return Case("render").N(algo).N(vg::chance(1, 3) ? 1 + vg::below(kAmbientModes - 1) : 0).S(dg);
+}
+static void enum_render(Enum& e) {
+  uint64_t idx = 0;
+  for (uint64_t algo = 0; algo < 3; algo++) {
+    size_t n = kDigestLen[algo];
+    // all bytes equal, under every ambient state
+    for (int v = 0; v < 256 && !e.stop; v++, idx++) {
+      if (!e.mine(idx)) continue;
+      for (uint64_t ambient = 0; ambient < kAmbientModes; ambient++) e.exec(Case("render").N(algo).N(ambient).S(std::string(n, static_cast<char>(v))));
+    }
+    // a uniform fill with one position set to every byte value
+    for (unsigned char fill : {0x00, 0x0A, 0x20, 0x30, 0x41, 0x7E, 0x7F, 0x80, 0xFF})
+      for (size_t pos = 0; pos < n && !e.stop; pos++, idx++) {
+        if (!e.mine(idx)) continue;
+        for (int v = 0; v < 256; v++) {
+          std::string dg(n, static_cast<char>(fill));
+          dg[pos] = static_cast<char>(v);
+          e.exec(Case("render").N(algo).N((pos + v) % 7 == 0 ? 1 + (v % (kAmbientModes - 1)) : 0).S(dg));
+        }
+      }
+  }
+  e.complete("MD5 / SHA-1 / SHA-256 objects whose state words are set to a chosen digest value: all bytes equal (256 values x every ambient locale state); nine uniform fills with one position set to every byte value");
+}
+
 // ---------------------------------------------------------------- generators
 
 static uint64_t gen_len() {
@@ -334,6 +548,8 @@ static Case gen_common(const char* name) {
     if (s <= len) split = s;
   }
   c.N(len).N(pattern).N(vg::below(16)).N(vg::u64()).N(split).N(vg::chance(1, 4) ? 0 : vg::interesting64() & 0xFFFFFFFFu).N(vg::interesting64() & 0xFFFFFFFFu).N(vg::interesting64());
+  // ambient process state (digest only): a third of the inputs of up to 4 KiB are also hashed and rendered under another locale
+  c.N(len <= 4096 && vg::chance(1, 3) ? 1 + vg::below(kAmbientModes - 1) : 0);
   if (pattern == 5) c.S(vg::bytes(len));
   return c;
 }
@@ -350,7 +566,58 @@ static void enum_digest(Enum& e) {
       if (!e.mine(idx)) continue;
       e.exec(Case("digest").N(len).N(pattern).N((len + pattern) & 15).N(0).N(0).N(0).N(0).N(0));
     }
-  e.complete(cat("every length 0..", maxlen, " x {zeros, 0xFF, i mod 251, xorshift keyed by the length} (every padding case around the 55/56/63/64-byte boundaries of the first ", maxlen / 64, " blocks)"));
+  // every length 0..300 under every ambient locale state (xorshift pattern)
+  for (uint64_t len = 0; len <= 300 && !e.stop; len++, idx++) {
+    if (!e.mine(idx)) continue;
+    for (uint64_t ambient = 1; ambient < kAmbientModes; ambient++)
+      e.exec(Case("digest").N(len).N(3).N((len + ambient) & 15).N(0).N(0).N(0).N(0).N(0).N(ambient));
+  }
+  // Digest-directed classes. hex()/bin() are functions of the digest VALUE, and the classes of that value (all bytes printable
+  // ASCII, all below / above 0x80, hex text made of decimal digits only, leading zeros, zero bytes ...) are not reachable by
+  // choosing lengths or contents: a message whose 16 digest bytes are all printable turns up once in 4.7 million. They are
+  // reachable by SEARCH with the independent reference: the fixed candidate messages "c10/<i>" are hashed with OpenSSL only,
+  // and those whose reference digest falls into one of the rare classes of digest_classes() go through the complete digest
+  // oracle. 2^25 candidates (thorough 2^28) for MD5, a quarter of them for SHA-1 and SHA-256. (all-printable needs 2e8
+  // candidates for SHA-1 and 2e13 for SHA-256: out of reach of a search; the `render` subcheck covers those.)
+  uint64_t blocks = e.thorough() ? 4096 : 512, sha_blocks = blocks / 4, candidates = 0, hits = 0;
+  for (uint64_t b = 0; b < blocks && !e.stop; b++, idx++) {
+    if (!e.mine(idx)) continue;
+    e.journal_block(Case("digest").N(0).N(5).N(0).N(0).N(0).N(0).N(0).N(0).N(0).S(cat("c10/", b << 16)));
+    for (uint64_t i = b << 16; i < ((b + 1) << 16) && !e.stop; i++) {
+      char msg[32];
+      int n = snprintf(msg, sizeof(msg), "c10/%llu", static_cast<unsigned long long>(i));
+      unsigned char dg[32];
+      MD5_CTX m5;
+      MD5_Init(&m5);
+      MD5_Update(&m5, msg, n);
+      MD5_Final(dg, &m5);
+      bool hit = digest_class_mask(dg, 16) != 0;
+      if (b < sha_blocks && !hit) {
+        SHA_CTX s1;
+        SHA1_Init(&s1);
+        SHA1_Update(&s1, msg, n);
+        SHA1_Final(dg, &s1);
+        hit = digest_class_mask(dg, 20) != 0;
+        if (!hit) {
+          SHA256_CTX s2;
+          SHA256_Init(&s2);
+          SHA256_Update(&s2, msg, n);
+          SHA256_Final(dg, &s2);
+          hit = digest_class_mask(dg, 32) != 0;
+        }
+      }
+      if (hit) {
+        hits++;
+        e.exec(Case("digest").N(n).N(5).N(i & 15).N(0).N(0).N(0).N(0).N(0).N(0).S(std::string(msg, n)));
+      }
+    }
+    candidates += 1 << 16;
+  }
+  e.x.cls("digest-search:candidate messages hashed with the reference only", candidates);
+  e.x.cls("digest-search:messages with a digest in a rare value class (run through the oracle)", hits);
+  e.complete(cat("every length 0..", maxlen, " x {zeros, 0xFF, i mod 251, xorshift keyed by the length} (every padding case around the 55/56/63/64-byte boundaries of the first ", maxlen / 64,
+      " blocks); every length 0..300 under each of the ", kAmbientModes - 1, " ambient locale states; every message \"c10/<i>\", i < ", blocks << 16, " (SHA-1/SHA-256: i < ", sha_blocks << 16,
+      ") whose reference digest is in a rare value class (all bytes printable / letters+digits / control / below 0x80 / from 0x80, decimal-only hex text, >=5 leading zero nibbles, every word starting with a zero nibble, >=3 zero bytes)"));
 }
 static void enum_chain(Enum& e) {
   uint64_t idx = 0;
@@ -365,8 +632,9 @@ static void enum_chain(Enum& e) {
 }
 static void enum_vectors(Enum& e) {
   for (uint64_t i = 0; i < sizeof(kVectors) / sizeof(kVectors[0]); i++)
-    if (e.mine(i)) e.exec(Case("vectors").N(i));
-  e.complete("the published test vectors (RFC 1321 suite, FIPS 180 examples, CRC-32 check value, FNV-1a reference values)");
+    if (e.mine(i))
+      for (uint64_t ambient = 0; ambient < kAmbientModes; ambient++) e.exec(Case("vectors").N(i).N(ambient));
+  e.complete("the published test vectors (RFC 1321 suite, FIPS 180 examples, CRC-32 check value, FNV-1a reference values), each under every ambient locale state");
 }
 
 int main(int argc, char** argv) {
@@ -374,6 +642,7 @@ int main(int argc, char** argv) {
   checks.push_back({"vectors", run_vectors, nullptr, 0, 0, 100, enum_vectors});
   checks.push_back({"digest", run_digest, gen_digest, 100000, 600000, 100, enum_digest});
   checks.push_back({"chain", run_chain, gen_chain, 100000, 600000, 100, enum_chain});
+  checks.push_back({"render", run_render, gen_render, 40000, 400000, 100, enum_render});
   checks.push_back({"concurrent", run_concurrent, gen_concurrent, 400, 4000, 100, nullptr});
   checks.push_back({"huge", run_huge, nullptr, 0, 0, 100, enum_huge});
   return main_(argc, argv, checks);
